@@ -177,12 +177,23 @@ func errText(err error) string {
 	if err == nil {
 		return "<nil>"
 	}
+	txt := ""
+	if p, t := mon.Catch(func() { txt = err.Error() }); p {
+		txt = "Error() panics: " + numRe.ReplaceAllString(firstLine(t), "N")
+	}
 	if b, ok := err.(interface{ Bytes() []byte }); ok { // errors that can be sent to the client: what they encode to is part of the result
 		var enc []byte
 		mon.Catch(func() { enc = b.Bytes() })
-		return fmt.Sprintf("%T:%s:%x", err, err.Error(), enc)
+		return fmt.Sprintf("%T:%s:%x", err, txt, enc)
 	}
-	return fmt.Sprintf("%T:%s", err, err.Error())
+	return fmt.Sprintf("%T:%s", err, txt)
+}
+
+func firstLine(s string) string {
+	if i := strings.IndexByte(s, '\n'); i >= 0 {
+		return s[:i]
+	}
+	return s
 }
 
 func same(a, b result) string {
@@ -281,8 +292,28 @@ func observe(c *Case, r *mon.Rec, in []byte, tail []byte) {
 			a["panic"] = numRe.ReplaceAllString(r0.bpanic, "N")
 			r.Violate(c, "bytes-panics-after-parse", a, fmt.Sprintf("input (%d bytes) % x accepted as %T, Bytes(): %s", len(in), head(in), r0.v, r0.bpanic))
 		}
+		// an error a parser returns is a value its caller will print
+		if r0.err != nil && !r0.panicked {
+			if p, t := mon.Catch(func() { _ = r0.err.Error() }); p {
+				r.Violate(c, "returned-error-panics", mon.Attrs{"entry": e.Name}, fmt.Sprintf("input (%d bytes) % x: the returned %T panics in Error(): %s", len(in), head(in), r0.err, firstLine(t)))
+			}
+		}
+		if !bytes.Equal(ps[0], in) {
+			r.Violate(c, "parser-writes-to-input", mon.Attrs{"entry": e.Name, "where": "inside"}, fmt.Sprintf("input (%d bytes) % x reads % x after the call", len(in), head(in), head(ps[0])))
+			copy(ps[0], in)
+		}
 		for k := 1; k < 3; k++ {
+			full := ps[k][:cap(ps[k])]
+			before := append([]byte{}, full...)
 			rk := call(e, ps[k])
+			if !bytes.Equal(full, before) {
+				where := "inside"
+				if bytes.Equal(full[:len(in)], before[:len(in)]) {
+					where = "spare-capacity"
+				}
+				r.Violate(c, "parser-writes-to-input", mon.Attrs{"entry": e.Name, "where": where}, fmt.Sprintf("input (%d bytes) % x with spare capacity: after the call the caller's buffer reads % x, it was % x (the bytes behind the input are the caller's - the next frame, for one)", len(in), head(in), head(full[max(0, len(in)-4):]), head(before[max(0, len(in)-4):])))
+				copy(full, before)
+			}
 			if d := same(r0, rk); d != "" {
 				r.Violate(c, "depends-on-spare-capacity", mon.Attrs{"entry": e.Name, "differs": d}, fmt.Sprintf("input (%d bytes) % x; presentation %d (tail % x) gave %v / %s, exact-capacity gave %v / %s", len(in), head(in), k, head(tail), rk.v, errText(rk.err), r0.v, errText(r0.err)))
 				break
